@@ -42,6 +42,24 @@ WORDS = ["alpha", "beta", "gamma", "delta", "value", "returns", "the", "of", "a"
          "when", "set", "name", "result", "string", "option", "build", "flag"]
 
 
+def _same(x):
+    return x
+
+
+def rep(strategy, n):
+    """n distinct strategy objects equivalent to `strategy` (one_of dedupes identical objects,
+    so weighting needs distinct ones)."""
+    return [strategy] + [strategy.map(_same) for _ in range(max(0, n - 1))]
+
+
+def weighted(*pairs):
+    """weighted((3, s1), (1, s2)) -> one_of with s1 three times as likely as s2."""
+    alts = []
+    for w, strat in pairs:
+        alts += rep(strat, w)
+    return st.one_of(*alts)
+
+
 def ident():
     return st.sampled_from(IDENT_T)
 
@@ -52,7 +70,7 @@ def single(pool=None):
 
 def name_arg():
     """Names of definitions: mostly identifiers, sometimes any other single-argument form."""
-    return st.one_of(ident(), ident(), ident(), st.sampled_from(QUOTED_T[:3] + VAR_T[:3] + UNQ_T[:3] + BRACKET_T[:2]))
+    return weighted((3, ident()), (1, st.sampled_from(QUOTED_T[:3] + VAR_T[:3] + UNQ_T[:3] + BRACKET_T[:2])))
 
 
 def arglist(min_size=0, max_size=4, pool=None):
@@ -64,7 +82,7 @@ def group_args(depth=2, max_size=4):
     base = st.one_of(ident(), single())
     if depth <= 0:
         return st.lists(base, max_size=max_size)
-    return st.lists(st.one_of(base, base, base, st.deferred(lambda: group_args(depth - 1, 3))), max_size=max_size)
+    return st.lists(weighted((3, base), (1, st.deferred(lambda: group_args(depth - 1, 3)))), max_size=max_size)
 
 
 # ------------------------------------------------------------------ doc text profiles
@@ -75,7 +93,7 @@ def benign_line():
 
 def benign_doc(max_lines=4):
     return st.fixed_dictionaries({
-        "lines": st.lists(st.one_of(benign_line(), benign_line(), st.just("")), min_size=0, max_size=max_lines),
+        "lines": st.lists(weighted((3, benign_line()), (1, st.just(""))), min_size=0, max_size=max_lines),
         "form": st.sampled_from(["leader", "leader", "leader", "bare"]),
         "mpos": st.integers(0, 8),
     })
@@ -84,7 +102,7 @@ def benign_doc(max_lines=4):
 def maybe(strategy, p_none=0.5):
     if p_none >= 0.5:
         return st.one_of(st.none(), strategy)
-    return st.one_of(st.none(), strategy, strategy, strategy)
+    return weighted((1, st.none()), (3, strategy))
 
 
 # ------------------------------------------------------------------ items
@@ -92,7 +110,7 @@ def maybe(strategy, p_none=0.5):
 class Profile:
     def __init__(self, doc=None, p_doc_mostly=False, max_items=8, depth=3, kinds=None, body_max=4,
                  dangling=True, classes=True, tests=True, groups=True, moddoc=True, parseargs=True,
-                 moddoc_indent=None):
+                 moddoc_indent=None, set_values=None, option_help=None, weights=None):
         self.doc = doc if doc is not None else benign_doc()
         self.p_doc_mostly = p_doc_mostly
         self.max_items = max_items
@@ -106,6 +124,9 @@ class Profile:
         self.moddoc = moddoc
         self.parseargs = parseargs
         self.moddoc_indent = moddoc_indent
+        self.set_values = set_values
+        self.option_help = option_help
+        self.weights = weights or {}
 
     def mdoc(self):
         return maybe(self.doc, 0.2 if self.p_doc_mostly else 0.5)
@@ -135,13 +156,15 @@ def item(p, depth, ctx):
             "body": items(p, depth - 1, "body", p.body_max) if sub else st.just([]),
             "endarg": st.booleans(),
         })
-        alts += [f, f]
+        alts += rep(f, 2)
     if want("set"):
-        alts.append(st.fixed_dictionaries({"k": st.just("set"), "name": ident(), "values": arglist(0, 4),
+        alts.append(st.fixed_dictionaries({"k": st.just("set"), "name": ident(),
+                                           "values": p.set_values if p.set_values is not None else arglist(0, 4),
                                            "doc": p.mdoc()}))
     if want("option"):
         alts.append(st.fixed_dictionaries({"k": st.just("option"), "name": ident(),
-                                           "help": st.sampled_from(QUOTED_T[:2] + ['"Help text @"', "HELP@"]),
+                                           "help": p.option_help if p.option_help is not None else
+                                           st.sampled_from(QUOTED_T[:2] + ['"Help text @"', "HELP@"]),
                                            "default": maybe(st.sampled_from(["ON", "OFF", "${dflt@}", '"ON"', "TRUE"])),
                                            "doc": p.mdoc()}))
     if want("generic"):
@@ -161,26 +184,49 @@ def item(p, depth, ctx):
                                            "body": items(p, depth - 1, "class", p.body_max + 2)}))
     if ctx == "class":
         if want("attr"):
-            alts.append(st.fixed_dictionaries({"k": st.just("attr"), "cls": ident(), "name": ident(),
-                                               "extra": arglist(0, 2), "doc": p.mdoc()}))
+            alts += rep(st.fixed_dictionaries({"k": st.just("attr"), "cls": ident(), "name": ident(),
+                                               "extra": arglist(0, 2), "doc": p.mdoc()}), 3)
         if want("member"):
             m = st.fixed_dictionaries({"k": st.just("member"), "ctor": st.booleans(),
                                        "name": ident(), "cls": ident(),
                                        "types": st.lists(st.sampled_from(["int", "str", "bool", "desc", "T@", "args", "list*"]),
                                                          max_size=4),
                                        "doc": p.mdoc(), "impl": _impl(p, depth, "member")})
-            alts += [m, m]
+            alts += rep(m, 5)
     if want("test") and p.tests and sub and ctx in ("top", "block", "class"):
         alts.append(_testlike(p, depth, "test"))
     if want("section") and p.tests and sub and ctx == "body-test":
         s = _testlike(p, depth, "section")
-        alts += [s, s]
+        alts += rep(s, 2)
     if want("addtest") and p.tests and ctx in ("top", "block"):
         alts.append(st.fixed_dictionaries({"k": st.just("addtest"), "pre": _test_extra(), "name": _test_name(),
                                            "post": _test_extra(), "doc": p.mdoc()}))
     if p.dangling and want("dangling"):
         alts.append(st.fixed_dictionaries({"k": st.just("dangling"), "doc": p.doc}))
+    if p.weights:
+        # alternatives are dict strategies with a fixed "k"; repeat them by weight (0 drops the kind here)
+        weighted = []
+        seen = set()
+        for a in alts:
+            if id(a) in seen or _kind_of(a) is None and False:
+                continue
+            seen.add(id(a))
+            k = _kind_of(a)
+            w = p.weights.get(k, 1)
+            if w > 0:
+                weighted += rep(a, w)
+        alts = weighted or alts
     return st.one_of(*alts)
+
+
+def _kind_of(strategy):
+    try:
+        return strategy.wrapped_strategy.mapping["k"].value
+    except Exception:
+        try:
+            return strategy.mapping["k"].value
+        except Exception:
+            return None
 
 
 def _test_name():
@@ -207,11 +253,11 @@ def items(p, depth, ctx, max_size):
 def module(p):
     moddoc = st.none()
     if p.moddoc:
-        moddoc = st.one_of(st.none(), st.none(), st.fixed_dictionaries({
+        moddoc = weighted((2, st.none()), (1, st.fixed_dictionaries({
             "name": st.one_of(st.none(), st.sampled_from(["mod_@", "My.Module@", "pkg/mod@", "m@-x"])),
             "lines": st.lists(benign_line(), max_size=3) if p.doc is None else p.doc.map(lambda d: d["lines"]),
             "mpos": st.integers(0, 8),
-            "indent": st.none() if p.moddoc_indent is None else p.moddoc_indent}))
+            "indent": st.none() if p.moddoc_indent is None else p.moddoc_indent})))
     return st.fixed_dictionaries({"moddoc": moddoc,
                                   "items": items(p, p.depth, "top", p.max_items)}).map(finalize)
 
